@@ -23,6 +23,15 @@ def gen_case(rng, i=None, pruning=False, allow_none=True):
     if rng.random() < 0.03:
         xs = S.longtexts(rng)
         pools = ['longtext']
+    elif rng.random() < 0.03:
+        xs = S.runlengths(rng)
+        pools = ['runlengths']
+    elif rng.random() < 0.02:
+        xs = S.manygroups(rng)
+        pools = ['manygroups']
+    elif rng.random() < 0.03:
+        xs = S.tails(rng)
+        pools = ['tails']
     odd = rng.random() < 0.08
     if odd:
         # "odd one out": many strings of one class plus one or two look-alikes of a neighbouring class
@@ -45,7 +54,7 @@ def gen_case(rng, i=None, pruning=False, allow_none=True):
         form = rng.choice(['list', 'list', 'list', 'dict', 'dict', 'series', 'serieslist', 'catseries'])
         sampled = rng.random() < 0.45 or odd
     kw = dict(tag=rng.random() < 0.3, strip=rng.random() < 0.2, remove_empties=rng.random() < 0.3,
-              extra_letters=rng.choice(EXTRAS), variableLengthFrags=rng.random() < 0.3, dialect=dialect)
+              extra_letters=rng.choice(EXTRAS), variableLengthFrags=rng.random() < 0.3 or pools == ['tails'], dialect=dialect)
     size = None
     seed = None
     if sampled:
@@ -99,6 +108,14 @@ def build_input(case, order=None):
     if order is not None:
         xs = [xs[j] for j in order]
     form = case['form']
+    if form.startswith('extract-'):
+        # the module-level extract() entry point; "bytes" = encoded examples together with encoding='utf-8'
+        base = build_input(dict(case, form='dict' if form.endswith('dict') else 'list', xs=xs))
+        if 'bytes' not in form:
+            return base
+        if isinstance(base, dict):
+            return {k.encode('utf-8'): v for k, v in base.items()}
+        return [x.encode('utf-8') for x in base]
     if form == 'list':
         return xs
     if form == 'dict':
@@ -152,6 +169,9 @@ def run_extractor(case, inp=None, **over):
     with contextlib.redirect_stdout(buf):
         if case['form'] in SERIES_FORMS:
             return rexpy.pdextract(inp, seed=case['seed'])
+        if case['form'].startswith('extract-'):
+            return rexpy.extract(inp, encoding='utf-8' if 'bytes' in case['form'] else None, as_object=True,
+                                 size=make_size(case), seed=case['seed'], **kw)
         return rexpy.Extractor(inp, size=make_size(case), seed=case['seed'], **kw)
 
 
